@@ -88,9 +88,29 @@ def perturb(r, cs, existing=None):
     return cs2, "value"
 
 
+def scripted_reverted_account_field():
+    """forced, not drawn (seeding round 25, `C10-reverted-setcode-keeps-empty-hash`): a failed transaction (snapshot, one account-field
+    write, revert) on an account whose balance / nonce the same block changes — before or after that change, on an account with or
+    without a committed record.  The account's dirty copy exists in every variant, so the root must not see the failed transaction."""
+    hs = []
+    c0 = sorted(CODES)[0]
+    for fld in (f"setcode a0 {c0} {CODES[c0]}", "setbal a0 9", "setnonce a0 8"):
+        for chg, chg3 in (("setbal a0 5", "setbal a0 6"), ("setnonce a0 3", "setnonce a0 4")):
+            for pos in ("before", "after"):
+                for rec in (False, True):
+                    base = ["setbal a0 2", "set a0 k v", "finalise", "flush", "commit 1"] if rec else []
+                    failed = ["snap", fld, "revert 0", "finalise"]
+                    seg1 = ["open"] + base + [chg, "finalise", "flush"]
+                    seg2 = ["open"] + base + (failed + [chg] if pos == "before" else [chg, "finalise"] + failed) + ["finalise", "flush"]
+                    seg3 = ["open"] + base + [chg3, "finalise", "flush"]
+                    hs.append(History(seg1 + seg2 + seg3, tags={"perturb:value", "variant:reverted-write/account-field-of-changed-account",
+                                                                 "scripted:reverted-account-field:" + fld.split()[0] + ":" + pos + (":record" if rec else ":fresh")}))
+    return hs
+
+
 def gen_state(rng, n, tier):
     import random as _r
-    hs = []
+    hs = scripted_reverted_account_field()
     for _ in range(n):
         r = _r.Random(rng.getrandbits(64))
         # a common committed base (one or two blocks), then the same change set in three orders / read mixes,
@@ -209,9 +229,18 @@ def gen_state(rng, n, tier):
                     shape = r.choice(["account-field", "storage", "after-own"])
                     if shape == "after-own" and not any(t[1] == "k" for t in c):
                         shape = "storage"
+                    # a fourth shape (seeding round 25): the account-field write of the failed transaction goes to an account whose
+                    # balance / nonce the block changes anyway.  The dirty copy of that account exists in every variant, so the cause
+                    # of the recorded finding (.../account-field: an EMPTY dirty copy that would not exist otherwise) is not in play
+                    # and the roots must agree; it has its own fingerprint so that the recorded finding cannot swallow it
+                    changed = sorted({t[0] for t in c if t[1] in ("bal", "nonce")})
+                    a_forced = None
+                    if shape == "account-field" and changed and r.random() < 0.6:
+                        shape = "account-field-of-changed-account"
+                        a_forced = r.choice(changed)
                     variant = "reverted-write/" + shape
                     if shape != "after-own":
-                        a = r.choice(ACCTS)
+                        a = a_forced or r.choice(ACCTS)
                         if r.random() < 0.5:
                             ops.append(f"bal {a}")
                             ops.append("finalise")
